@@ -29,7 +29,7 @@ DECIMALS = ["0.29", "1.1", "0.1", "0.5", "2.5", "3.5", "0.07", "0.57",
 
 def plan(tier, seed):
     if tier == "quick":
-        return [dict(seed=seed, shard=i, n=150) for i in range(16)]
+        return [dict(seed=seed, shard=i, n=450) for i in range(16)]
     return [dict(seed=seed, shard=i, n=1500) for i in range(64)]
 
 
